@@ -1756,6 +1756,24 @@ def generics_family(tier, seed):
         "pyd_two_levels": {"kind": "pydantic", "classes": [("A", ["T"], [], {"a": "T", "as_": "List[T]"}),
                                                            ("B", ["T", "U"], [("A", ["U"])], {"b": "Dict[str, T]"})],
                            "queries": ["B[str, int]", "A[Decimal]"]},
+        # PEP 604 unions whose operands are builtin generics (types.UnionType carries __parameters__ too)
+        "pep604": {"classes": [("A", ["T"], [], {"o": "list[T] | None", "u": "dict[str, T] | T", "p": "T | None"}),
+                               ("IntA", [], [("A", ["int"])], {}),
+                               ("B", ["U"], [("A", ["U"])], {"own": "U | None"})],
+                   "queries": ["A[str]", "A[Decimal]", "IntA", "B[bool]"]},
+        # a child re-declares a field with the SAME spelling (same TypeVar object) while it binds the parent's variable to
+        # something else: the child's annotation still overrides
+        "same_spelling_override": {"classes": [("A", ["T"], [], {"items": "List[T]", "x": "T"}),
+                                               ("B", ["T"], [("A", ["int"])], {"items": "List[T]"}),
+                                               ("G", [], [("B", ["Decimal"])], {})],
+                                   "queries": ["B[str]", "G", "B[bool]"]},
+        # diamond: the second branch overrides a field of the common root (MRO: D, B, C, A)
+        "diamond": {"classes": [("A", ["T"], [], {"x": "T", "y": "T"}),
+                                ("B", ["T"], [("A", ["T"])], {}),
+                                ("C3", ["T"], [("A", ["T"])], {"x": "List[T]"}),
+                                ("D4", [], [("B", ["int"]), ("C3", ["int"])], {}),
+                                ("E5", ["U"], [("C3", ["U"]), ("B", ["U"])], {"own": "U"})],
+                    "queries": ["D4", "E5[str]", "E5[Decimal]"]},
         "two_bases": {"classes": [("A", ["T"], [], {"a": "T"}), ("M", ["U"], [], {"m": "U"}),
                                   ("B", ["T", "U"], [("A", ["T"]), ("M", ["U"])], {"own": "Dict[T, U]"})],
                       "queries": ["B[int, str]", "B[str, float]"]},
